@@ -478,8 +478,8 @@ for e, props in (('b_rt_times', ['C01', 'C03', 'C04', 'C05', 'C06', 'C08', 'C14'
 # unit c09: whole scenarios written against the public macros (driver functions), lowered with the user's closures (C09, partial)
 UNITS['c09'] = {
     'opaque': [' get_lock$'],
-    'dyn_types': [r'^sequence_handler<[012]>$', r'^call_matcher<.*>$', r'^return_handler_t<.*lambdaat.*>$', r'^condition<.*\(lambdaat.*\)>$', r'^side_effect<.*\(lambdaat.*\)>$'],
-    'roots': {'C09_ALIAS': '^_ZN14vp_trompeloeil12vp_c09_aliasE', 'C09_LR': '^_ZN14vp_trompeloeil16vp_c09_lr_returnE', 'C09_POS': '^_ZN14vp_trompeloeil16vp_c09_positionsE', 'C09_A15': '^_ZN14vp_trompeloeil14vp_c09_arity15E', 'C14_MOVE': '^_ZN14vp_trompeloeil11vp_c14_moveE', 'C08_THROW': '^_ZN14vp_trompeloeil12vp_c08_throwE', 'C15_PM': '^_ZN14vp_trompeloeil21vp_c15_param_mismatchE', 'OBS15': 'rec:^vp_vp_obs15$', 'OBS': 'rec:^vp_vp_obs$'},
+    'dyn_types': [r'^sequence_handler<[012]>$', r'^call_matcher<.*>$', r'^return_handler_t<.*lambdaat.*>$', r'^condition<.*\(lambdaat.*\)>$', r'^side_effect<.*\(lambdaat.*\)>$', r'^vp_vp_MI$'],
+    'roots': {'C09_ALIAS': '^_ZN14vp_trompeloeil12vp_c09_aliasE', 'C09_LR': '^_ZN14vp_trompeloeil16vp_c09_lr_returnE', 'C09_POS': '^_ZN14vp_trompeloeil16vp_c09_positionsE', 'C09_A15': '^_ZN14vp_trompeloeil14vp_c09_arity15E', 'C09_A15T': '^_ZN14vp_trompeloeil20vp_c09_arity15_throwE', 'C09_RV': '^_ZN14vp_trompeloeil13vp_c09_rvalueE', 'C09_MO': '^_ZN14vp_trompeloeil15vp_c09_moveonlyE', 'C14_MOVE': '^_ZN14vp_trompeloeil11vp_c14_moveE', 'C08_THROW': '^_ZN14vp_trompeloeil12vp_c08_throwE', 'C15_PM': '^_ZN14vp_trompeloeil21vp_c15_param_mismatchE', 'OBS15': 'rec:^vp_vp_obs15$', 'OBS': 'rec:^vp_vp_obs$'},
 }
 ob(name='scenario.movable_mock_moved', kind='FC+', props=['C14', 'C03', 'C15'], unit='c09', harness='h_c09.c', entry='c_move', unwind=14, timeout=900, object_bits=12, defines={'VP_TOK_CAP': 12},
    bound='none for the argument value; the scenario (movable mock with one active and one saturated expectation, moved, called, over-called) is fixed by the driver function')
@@ -498,8 +498,8 @@ ob(name='scenario.require_destruction_macros', kind='FC+', props=['C13', 'C15', 
    bound='none: both cases (a requirement is alive / none is); one deathwatched object')
 ob(name='scenario.throw_clause', kind='FC+', props=['C08', 'C03', 'C14'], unit='c09', harness='h_c09.c', entry='c_throw', unwind=6, timeout=900, object_bits=12,
    bound='none for the value written by the side effect; one expectation with a side effect and THROW(7)')
-for e in ('c_alias', 'c_lr', 'c_positions', 'c_arity15'):
-    ob(name='c09.%s' % e[2:], kind='FC+', props=['C09'], unit='c09', harness='h_c09.c', entry=e, unwind=17 if e == 'c_arity15' else 6, timeout=900, object_bits=12,
+for e in ('c_alias', 'c_lr', 'c_positions', 'c_arity15', 'c_arity15_throw', 'c_rvalue', 'c_moveonly'):
+    ob(name='c09.%s' % e[2:], kind='FC+', props=['C09'], unit='c09', harness='h_c09.c', entry=e, unwind=17 if e.startswith('c_arity15') else 6, timeout=900, object_bits=12,
        bound='none for the values (symbolic ints); the scenario (one mock function of arity 3 / 1 / 0, the clauses listed in the harness) is fixed by the driver function')
 
 # unit mf_glue: mock_func itself as a MODULAR obligation: find(), the free report_mismatch() and the matcher's virtual run_actions() /
